@@ -99,8 +99,8 @@ func mdel(t *abi.MapType, h *hmap, k uint64) { mapdelete(t, h, unsafe.Pointer(&k
 
 // ghost: the finite map the operations must implement
 type ghost struct {
-	k, v [24]uint64
-	live [24]bool
+	k, v [40]uint64
+	live [40]bool
 	n    int
 }
 
@@ -320,4 +320,159 @@ func H_map_nil() {
 	nd_assert(!ok && v == 0, "C06.nil.read")
 	nd_assert(nd_try(func() { mput(t, nil, k, 1) }), "C06.nil.write")
 	nd_reach("C06.nil")
+}
+
+// ---- same-size grow (overflow-bucket churn) ---------------------------------------
+
+// mapTypeIdent: hash(k) = k, so the low bits of a key choose its bucket and its top
+// byte is the tophash: the harness steers which buckets a script touches.
+func mapTypeIdent() *abi.MapType {
+	t := mapType64()
+	t.Hasher = func(p unsafe.Pointer, seed uintptr) uintptr { return uintptr(*(*uint64)(p)) }
+	return t
+}
+
+// grownMap: 16 keys 1..16 in a table of 4 buckets (B == 2), no grow in progress.
+func grownMap(t *abi.MapType, g *ghost) *hmap {
+	h := makemap(t, 0, nil)
+	for i := 1; i <= 16; i++ {
+		mput(t, h, uint64(i), uint64(100+i))
+		g.put(uint64(i), uint64(100+i))
+	}
+	nd_assume(h.B == 2 && !h.growing())
+	return h
+}
+
+// forceSameSizeGrow puts the map into the state overflow-bucket churn leads to
+// (noverflow >= 2^B while the load factor is fine: deletes do not decrement
+// noverflow), so that the next insert starts a same-size grow.
+func forceSameSizeGrow(h *hmap) { h.noverflow = 1 << h.B }
+
+// a range loop whose body starts a same-size grow and keeps writing: every entry
+// that is present for the whole loop is produced exactly once, a deleted entry is
+// not produced after its deletion, nothing is produced twice
+func mapSameSizeIter(wide bool, del bool) {
+	t := mapTypeIdent()
+	var g ghost
+	h := grownMap(t, &g)
+	var it hiter
+	var seen [40]int
+	// the random start position, chosen by the harness: every start bucket, slot
+	// offsets 0 and 5 (mapiterinit: startBucket = r & 3, offset = r >> 2 & 7)
+	if wide {
+		nd_setrand(int(pick("sb", 0, 3) | pick("off", 0, 1)*5<<2))
+	} else {
+		nd_setrand(int(pick("sb", 0, 1) * 3))
+	}
+	mapiterinit(t, h, &it)
+	steps := 0
+	step := func(deleted uint64) {
+		k := *(*uint64)(it.key)
+		v := *(*uint64)(it.elem)
+		i := g.find(k)
+		nd_assert(k != deleted, "C06.samesize.iter.nodeleted")
+		nd_assert(i >= 0 && g.v[i] == v, "C06.samesize.iter.live")
+		if i >= 0 {
+			seen[i]++
+		}
+		mapiternext(&it)
+		steps++
+	}
+	var pre uint64
+	if wide {
+		pre = pick("pre", 0, 3)
+	} else {
+		pre = pick("pre", 0, 1) * 2
+	}
+	for it.key != nil && uint64(steps) < pre {
+		step(0)
+	}
+	// loop body, first write: a new key, which starts the same-size grow
+	forceSameSizeGrow(h)
+	var k1 uint64
+	if wide {
+		k1 = pick("k1", 17, 20)
+	} else {
+		k1 = 17 + 2*pick("k1", 0, 1) // bucket 1 or 3
+	}
+	mput(t, h, k1, 1)
+	g.put(k1, 1)
+	nd_assume(h.growing() && h.sameSizeGrow())
+	if it.key != nil {
+		step(0)
+	}
+	// second write: update or delete of an old key (evacuates its bucket)
+	var deleted uint64
+	var k2 uint64
+	if wide {
+		k2 = pick("k2", 1, 4)
+	} else {
+		k2 = 1 + 2*pick("k2", 0, 1)
+	}
+	if del {
+		mdel(t, h, k2)
+		g.del(k2)
+		deleted = k2
+	} else {
+		mput(t, h, k2, 2)
+		g.put(k2, 2)
+	}
+	for it.key != nil && steps < 40 {
+		step(deleted)
+	}
+	ok := true
+	for i := 0; i < g.n; i++ {
+		switch {
+		case g.k[i] == k1 || g.k[i] == deleted:
+			if seen[i] > 1 {
+				ok = false
+			}
+		case g.k[i] == k2 && !del:
+			// updated during the loop: produced once, with the old or the new value
+			if seen[i] != 1 {
+				ok = false
+			}
+		default:
+			if seen[i] != 1 {
+				ok = false
+			}
+		}
+	}
+	nd_assert(ok, "C06.samesize.iter.once")
+	checkAll(t, h, &g, "C06.samesize.all")
+	nd_reach("C06.samesize.iter")
+}
+
+func H_map_samesize_iter()          { mapSameSizeIter(false, false) }
+func H_map_samesize_iter_del()      { mapSameSizeIter(false, true) }
+func H_map_samesize_iter_wide()     { mapSameSizeIter(true, false) }
+func H_map_samesize_iter_del_wide() { mapSameSizeIter(true, true) }
+
+// clear() while a same-size grow is still being evacuated, then enough inserts to
+// cross the next doubling: every key stored after the clear is found
+func H_map_samesize_clear() {
+	t := mapTypeIdent()
+	var g ghost
+	h := grownMap(t, &g)
+	forceSameSizeGrow(h)
+	mput(t, h, 17, 1)
+	nd_assume(h.growing() && h.sameSizeGrow())
+	mapclear(t, h)
+	g = ghost{}
+	nd_assert(h.count == 0, "C06.samesize.clear.len")
+	for i := 0; i < 23; i++ {
+		k := uint64(100 + i*5)
+		mput(t, h, k, uint64(i))
+		g.put(k, uint64(i))
+	}
+	for i := 0; i < 8; i++ {
+		k := uint64(300 + i*3)
+		mput(t, h, k, uint64(i))
+		g.put(k, uint64(i))
+	}
+	nd_assume(h.B == 3)
+	checkAll(t, h, &g, "C06.samesize.clear.all")
+	q := nd_uint64("q")
+	checkLookup(t, h, &g, q, "C06.samesize.clear.lookup")
+	nd_reach("C06.samesize.clear")
 }
